@@ -78,7 +78,11 @@ def rational_quadratic_spline(
     min_derivative=DEFAULT_MIN_DERIVATIVE,
     enable_identity_init=False,
 ):
-    if torch.min(inputs) < left or torch.max(inputs) > right:
+    if inverse:
+        domain_low, domain_high = bottom, top
+    else:
+        domain_low, domain_high = left, right
+    if torch.min(inputs) < domain_low or torch.max(inputs) > domain_high:
         raise InputOutsideDomain()
 
     num_bins = unnormalized_widths.shape[-1]
